@@ -175,6 +175,10 @@ def apply_transform(cfg, t):
         return cfg.rename(lambda x: ("r", x))
     if name == "unfold":
         return cfg.unfold(t[1], t[2])
+    if name == "sub_trim":
+        # the sub-language rooted at another nonterminal, trimmed after the parent has been trimmed
+        cfg.trim()
+        return cfg[ntname(t[1])].trim()
     raise ValueError(name)
 
 
@@ -225,7 +229,7 @@ def run_query(cfg, g, sr, q):
     if op == "prefix_weight":
         return [enc(cfg.prefix_weight(s2py(xs))) for xs in q["xs"]]
     if op == "derivative_call":
-        d = cfg.derivative(tname(q["a"]))
+        d = cfg.derivative(q["a_raw"] if "a_raw" in q else tname(q["a"]))
         for b in q.get("then", []):   # derivative of a derivative grammar, one call at a time
             d = d.derivative(tname(b))
         return [enc(d(s2py(xs))) for xs in q["xs"]]
@@ -247,10 +251,11 @@ def run_query(cfg, g, sr, q):
             cfg = build(part, sr)
             cfg.rhs
             list(cfg.derivations(None, 2))
+            cfg.treesum()      # a query before the grammar is complete
             R, conv = wconv(sr)
             for w, h, b in g["rules"][len(g["rules"]) - k:]:
                 cfg.add(conv(w), ntname(h), *[(tname(v) if kk == "T" else ntname(v)) for kk, v in b])
-        ln = locally_normalize(cfg)
+        ln = locally_normalize(cfg, **q.get("kwargs", {}))
         heads = {}
         for r in ln.rules:
             heads[str(r.head)] = heads.get(str(r.head), 0) + r.w
